@@ -89,6 +89,7 @@ where
   pStr (cs : List Char) : Option (List UInt8 × List Char) := do
     let (b, r) ← pHexBytes cs
     match r with
+    | '>' :: '>' :: r => pHexBytes r
     | '>' :: r => pHexBytes r
     | _ => some (b, r)
   pChunks (cs : List Char) (acc : List (List UInt8)) : Option (List (List UInt8) × List Char) :=
